@@ -22,8 +22,10 @@ impl PropertyValue { #[verifier::external_body] pub fn is_null(&self) -> bool { 
 impl Clone for PropertyValue { #[verifier::external_body] fn clone(&self) -> Self { unimplemented!() } }
 #[verifier::external_body] pub struct LabelSet { x: u8 }
 impl LabelSet { #[verifier::external_body] pub fn iter(&self) -> LabelIter { unimplemented!() }
+  /// the labels of the set, each once, in iteration order
+  pub uninterp spec fn lv(&self) -> Seq<Label>;
   /// stands for `&set` as an iterable: the labels, each once (D4)
-  #[verifier::external_body] pub fn as_vec(&self) -> &Vec<Label> { unimplemented!() } }
+  #[verifier::external_body] pub fn as_vec(&self) -> (r: &Vec<Label>) ensures r@ == self.lv() { unimplemented!() } }
 #[verifier::external_body] pub struct LabelIter { x: u8 }
 impl LabelIter { #[verifier::external_body] pub fn cloned(self) -> LabelIter { unimplemented!() }
   #[verifier::external_body] pub fn collect(self) -> Vec<Label> { unimplemented!() } }
@@ -155,6 +157,8 @@ impl GraphStore {
         ensures r matches Some(n) ==> (id.0 as int) < self.nodes@.len() && read(self.nodes@[id.0 as int]@, self.current_version) == Some(*n)
     { unimplemented!() }
     #[verifier::external_body] pub fn handle_index_event(&self, event: IndexEvent, tm: Option<std::sync::Arc<TenantManager>>) { unimplemented!() }
+    /// node n is listed under label l
+    pub open spec fn listed(&self, l: Label, n: NodeId) -> bool { self.label_index@.contains_key(l) && self.label_index@[l]@.contains(n) }
     /// "delete_edge has been called for this edge id" -- ghost bookkeeping of the calls delete_node makes
     pub uninterp spec fn asked_to_delete(&self, e: EdgeId) -> bool;
     /// delete_edge (unit store_adj; assumed here): records the request; does not touch the version chains or the frozen tier,
@@ -165,7 +169,7 @@ impl GraphStore {
             final(self).nodes@ == old(self).nodes@ && final(self).current_version == old(self).current_version,
             final(self).asked_to_delete(id), forall|e: EdgeId| old(self).asked_to_delete(e) ==> #[trigger] final(self).asked_to_delete(e),
             final(self).frozen_outgoing == old(self).frozen_outgoing && final(self).frozen_incoming == old(self).frozen_incoming,
-            final(self).free_node_ids@ == old(self).free_node_ids@,
+            final(self).free_node_ids@ == old(self).free_node_ids@, final(self).label_index@ == old(self).label_index@,
             final(self).outgoing@.len() == old(self).outgoing@.len() && final(self).incoming@.len() == old(self).incoming@.len(),
             forall|i: int| 0 <= i < old(self).outgoing@.len() ==> (#[trigger] final(self).outgoing@[i])@.len() <= old(self).outgoing@[i]@.len(),
             forall|i: int| 0 <= i < old(self).incoming@.len() ==> (#[trigger] final(self).incoming@[i])@.len() <= old(self).incoming@[i]@.len(),
@@ -188,6 +192,10 @@ impl GraphStore {
         r is Ok ==> forall|k: int| 0 <= k < old(self).incoming@[id.0 as int]@.len() ==> final(self).asked_to_delete((#[trigger] old(self).incoming@[id.0 as int]@[k]).1),      //#every_buffered_incoming_edge_is_deleted
         r is Ok ==> final(self).outgoing@[id.0 as int]@.len() == 0 && final(self).incoming@[id.0 as int]@.len() == 0,      //#its_write_buffers_are_emptied
         r is Ok ==> final(self).free_node_ids@ == old(self).free_node_ids@.push(id.0),      //#its_id_goes_on_the_free_list
+        r is Ok ==> (id.0 as int) < old(self).nodes@.len() && (read(old(self).nodes@[id.0 as int]@, old(self).current_version) matches Some(n0)
+            && forall|k: int| 0 <= k < n0.labels.lv().len() ==> !final(self).listed(#[trigger] n0.labels.lv()[k], id)),      //#no_longer_listed_under_its_labels
+        forall|l: Label, n: NodeId| n != id ==> #[trigger] final(self).listed(l, n) == old(self).listed(l, n),      //#other_nodes_listing_untouched
+        r is Err ==> final(self).label_index@ == old(self).label_index@,      //#refused_leaves_the_label_index
         r is Err ==> final(self).outgoing@ == old(self).outgoing@ && final(self).incoming@ == old(self).incoming@ && final(self).free_node_ids@ == old(self).free_node_ids@,      //#refused_changes_nothing
 //@loop 1 iter=it1
             invariant self.nodes@ == old(self).nodes@,
@@ -195,20 +203,45 @@ impl GraphStore {
                 self.frozen_outgoing == old(self).frozen_outgoing && self.frozen_incoming == old(self).frozen_incoming,
                 self.free_node_ids@ == old(self).free_node_ids@.push(id.0),
                 (id.0 as int) < self.nodes@.len() && self.nodes@[id.0 as int]@.len() > 0, idx == id.0 as int,
+                it1.seq().len() == latest_node.labels.lv().len(), forall|k: int| 0 <= k < it1.seq().len() ==> *(#[trigger] it1.seq()[k]) == latest_node.labels.lv()[k],
+                forall|k: int| 0 <= k < it1.index() ==> !self.listed(#[trigger] latest_node.labels.lv()[k], id),      //#unlisted_under_the_labels_so_far
+                forall|l: Label, n: NodeId| n != id ==> #[trigger] self.listed(l, n) == old(self).listed(l, n),      //#other_nodes_listing_untouched
+//@before "if let Some(node_set) = self.label_index.get_mut(label) {"
+            proof { axiom_key_models(); }
+            let ghost before = *self;
+//@after "self.catalog.on_label_removed(label);"
+            proof {
+                assert forall|k: int| 0 <= k < it1.index() + 1 implies !self.listed(#[trigger] latest_node.labels.lv()[k], id) by {
+                    if k < it1.index() { assert(!before.listed(latest_node.labels.lv()[k], id)); }
+                }
+                assert forall|l: Label, n: NodeId| n != id implies #[trigger] self.listed(l, n) == old(self).listed(l, n) by {
+                    assert(before.listed(l, n) == old(self).listed(l, n));
+                }
+            }
 //@loop 2 iter=it2
             invariant
                 idx == id.0 as int, idx < self.outgoing@.len() && idx < self.incoming@.len(),
                 self.outgoing@[idx as int]@.len() == 0 && self.incoming@[idx as int]@.len() == 0,
                 self.free_node_ids@ == old(self).free_node_ids@.push(id.0),
-                all_edges__@ == outgoing_edges@ + incoming_edges@,
+                all_edges__@ == outgoing_edges@ + incoming_edges@, self.label_index@ == li2,
                 forall|k: int| 0 <= k < it2.index() ==> self.asked_to_delete(#[trigger] all_edges__@[k]),      //#asked_for_the_ids_so_far
+//@afterloop 1
+        let ghost after1 = *self;
 //@before "let mut outgoing_edges: Vec<EdgeId>"
         let ghost fo = self.frozen_outgoing.nbrs(idx as int);
         let ghost fi = self.frozen_incoming.nbrs(idx as int);
         let ghost bo = self.outgoing@[idx as int]@;
         let ghost bi = self.incoming@[idx as int]@;
+        let ghost li2 = self.label_index@;
 //@before "Ok(node)"
         proof {
+            assert(self.label_index@ == after1.label_index@);
+            assert forall|l: Label, n: NodeId| n != id implies #[trigger] self.listed(l, n) == old(self).listed(l, n) by {
+                assert(after1.listed(l, n) == old(self).listed(l, n));
+            }
+            assert forall|k: int| 0 <= k < latest_node.labels.lv().len() implies !self.listed(#[trigger] latest_node.labels.lv()[k], id) by {
+                assert(!after1.listed(latest_node.labels.lv()[k], id));
+            }
             assert(outgoing_edges@ == ids_of(fo) + ids_of(bo));
             assert(incoming_edges@ == ids_of(fi) + ids_of(bi));
             let all = all_edges__@;
